@@ -227,6 +227,38 @@ example : intoSortedVec (gtOf (lexCmp (fun a b : Nat => compare a b) (fun a b : 
         (selSorted (gtOf (lexCmp (fun a b : Nat => compare a b) (fun a b : Nat => compare b a)))))
       (Computer.new 1)) = [⟨(7, 0), 3⟩] := by decide
 
+/-- end to end through the LAZY tuple path (`TopDocs::order_by` with a tuple key): every segment's
+documents go through `compute_sort_key_and_collect` of the chained tuple (lazy acceptance against
+the `TopNComputer`'s threshold), the fruit is `into_vec()`, and `merge_top_k` + offset returns
+entries `O .. O+K` of the global order under the tuple's comparator — for every faithful acceptor
+(`C06_lazy_accept_agrees`), any number of segments. -/
+theorem C06_search_lazy_tuple {κ : Type} (cmp : κ → κ → Ordering) (hgt : StrictWeak (gtOf cmp)) (K O : Nat)
+    (sel : List (Entry κ) → List (Entry κ)) (hsel : SelectNth (gtOf cmp) (O + K) sel)
+    (accept : κ → κ → Option (Ordering × κ)) (hacc : Faithful accept cmp)
+    (segs : List (List (Entry κ))) (hseg : ∀ d, d ∈ segs → AddrAsc d) (hnd : AddrNodup segs.flatten) :
+    mergeTopK (gtOf cmp) K O (segs.map fun d => intoVec sel (d.foldl (collectLazy accept sel) (Computer.new (O + K))))
+      = topK (le (gtOf cmp)) K O segs.flatten := by
+  have hall : TopN.Forall₂ (fun f d => ((isort (le (gtOf cmp)) f).take (O + K) = (isort (le (gtOf cmp)) d).take (O + K)) ∧
+      (∀ x, x ∈ f → x ∈ d) ∧ AddrNodup f)
+      (segs.map fun d => intoVec sel (d.foldl (collectLazy accept sel) (Computer.new (O + K)))) segs := by
+    apply forall₂_map_left
+    intro d hd
+    have hinv := inv_collectLazyAll hgt hsel hacc d [] (Computer.new (O + K)) (inv_new _ _)
+      (by simpa using hseg d hd)
+    simp only [nil_append] at hinv
+    obtain ⟨h1, h2, h3⟩ := intoVec_spec hgt hsel hinv
+    exact ⟨by rw [h1, take_take]; simp, h2, h3⟩
+  exact C06_merge_offset (gtOf cmp) hgt K O _ segs (hall.imp fun _ _ h => h.1)
+    (addrNodup_flatten_of_sub (hall.imp fun _ _ h => h.2) hnd) hnd
+
+/-- two segments, pair keys (first descending, second ascending), K = 2, offset 1 -/
+example : mergeTopK (gtOf (lexCmp (fun a b : Nat => compare a b) (fun a b : Nat => compare b a))) 2 1
+    ([[⟨(5, 1), 0⟩, ⟨(7, 2), 1⟩, ⟨(5, 0), 2⟩], [⟨(7, 0), 100⟩, ⟨(7, 1), 101⟩]].map fun d =>
+      intoVec (selSorted (gtOf (lexCmp (fun a b : Nat => compare a b) (fun a b : Nat => compare b a))))
+        (d.foldl (collectLazy (acceptPair (acceptLeaf (fun a b : Nat => compare a b)) (acceptLeaf (fun a b : Nat => compare b a)))
+          (selSorted (gtOf (lexCmp (fun a b : Nat => compare a b) (fun a b : Nat => compare b a))))) (Computer.new (1 + 2))))
+    = [⟨(7, 1), 101⟩, ⟨(7, 2), 1⟩] := by decide
+
 /-- associativity of the merge: the best N of a union only depend on the best N of each part,
 whatever the grouping (segments, threads). -/
 theorem C06_merge_any_grouping (gt : α → α → Bool) (hgt : StrictWeak gt) (N : Nat)
